@@ -4,6 +4,7 @@ Oracle: every input row carries a unique (resource, ordinal) id; reference place
 expected resource order and, per output resource, the expected id sequence and field mapping.
 """
 import copy
+import datetime
 import decimal
 
 from vlib import boot, gen, lab, refmodel
@@ -46,10 +47,15 @@ def bump_x(row):
     row['x'] = (row['x'] or 0) + 1000
 
 
+STAMPS = [None, datetime.datetime(2020, 1, 2, 3, 4, 5), datetime.datetime(2020, 1, 2, 3, 4, 5, 678901),
+          datetime.datetime(2021, 6, 30, 23, 59, 59, 1, tzinfo=datetime.timezone(datetime.timedelta(hours=5, minutes=30))),
+          datetime.datetime(1999, 12, 31, 0, 0, tzinfo=datetime.timezone.utc)]
+
+
 def make_pkg(rng, nres, sizes=(0, 1, 3, 100, 101), same_schema=False):
     """-> names, {name: field list}, {name: rows}; field 'rid' is the unique row id."""
     names = NAMES[:nres]
-    pool = [('x', 'integer'), ('y', 'string'), ('z', 'number'), ('w', 'string'), ('v', 'integer')]
+    pool = [('x', 'integer'), ('y', 'string'), ('z', 'number'), ('w', 'string'), ('v', 'integer'), ('t', 'datetime')]
     fields, tables = {}, {}
     common = rng.sample(pool, rng.randint(1, 3))
     for n in names:
@@ -67,7 +73,9 @@ def make_pkg(rng, nres, sizes=(0, 1, 3, 100, 101), same_schema=False):
             for fn, ft in fl[1:]:
                 row[fn] = {'integer': lambda: rng.choice([None, 1, 2, 30, -4]),
                            'string': lambda: rng.choice([None, 'a', 'b c', 'é', '']),
-                           'number': lambda: rng.choice([None, D('1.5'), 2.5, D('-3')])}[ft]()
+                           'number': lambda: rng.choice([None, D('1.5'), 2.5, D('-3')]),
+                           # cells are Python values: microseconds and the UTC offset belong to them
+                           'datetime': lambda: rng.choice(STAMPS)}[ft]()
             rows.append(row)
         tables[n] = rows
     return names, fields, tables
@@ -228,6 +236,21 @@ def run_case(case):
             elif r < 0.75:
                 mapping[f.upper() * 2] = [f]
                 types[f.upper() * 2] = ftypes[f]
+        renamed_ = [(t_, ss_[0]) for t_, ss_ in mapping.items() if ss_ and t_ == ss_[0].upper() * 2]
+        if renamed_ and len(sel) > 1 and not shared_schema and \
+                boot.rng(case['seed'], 'C16', 'owntarget', case['idx']).random() < 0.35:
+            # one of the selected resources has the column under the TARGET's own name already, the others under the
+            # listed source name: a target field always takes the cells of a same-named source field too
+            t_, f_ = renamed_[0]
+            with_f = [n for n in sel if any(fn == f_ for fn, _ in fields[n])]
+            if with_f:
+                n_ = with_f[-1]
+                fields[n_] = [(t_ if fn == f_ else fn, ft) for fn, ft in fields[n_]]
+                for r in tables[n_]:
+                    if f_ in r:
+                        r[t_] = r.pop(f_)
+                cov['config']['concatenate/column_under_the_target_name_in_one_resource'] = 1
+                cfg['column_under_target_name_in'] = n_
         if 'x' in allf and 'v' in allf and rng.random() < 0.35:
             # two source fields of one row map onto one target: at most one of them is non-null
             for f in ('x', 'v', 'XX', 'VV'):
